@@ -210,7 +210,23 @@ func (s *ldapService) SetChannel(c pushers.Channel) {
 	s.c = c
 }
 
+// Handle serves one connection. The handlers read and write the bind state,
+// the TLS state and the connection itself through the service object, so
+// every connection gets an object of its own: with a single shared one,
+// concurrent connections read each other's sockets and bind states.
 func (s *ldapService) Handle(ctx context.Context, conn net.Conn) error {
+	session := &ldapService{
+		Server: s.Server,
+		c:      s.c,
+	}
+
+	session.Handlers = nil
+	session.setHandlers()
+
+	return session.serve(ctx, conn)
+}
+
+func (s *ldapService) serve(ctx context.Context, conn net.Conn) error {
 	s.wantTLS = false
 
 	s.login = "" // set the anonymous authstate
